@@ -428,6 +428,9 @@ func (fr *Frame) applyContract(ct *Contract, callee *ssa.Function, sig *types.Si
 	}
 	// 1. requires
 	for _, rq := range ct.Requires {
+		if !x.active(rq) {
+			continue
+		}
 		var t *Term
 		if err := safeEval(func() { t = env.Bool(rq.Expr) }); err != nil {
 			panic(stopExec{fmt.Sprintf("contract %s: requires %q: %v", cname, rq.Src, err)})
@@ -445,7 +448,9 @@ func (fr *Frame) applyContract(ct *Contract, callee *ssa.Function, sig *types.Si
 	// 2. effects
 	if x.mode.Effects {
 		for _, al := range ct.Allows {
-			fr.checkEffect(ct, al, env, pc, pos)
+			if x.active(al) {
+				fr.checkEffect(ct, al, env, pc, pos)
+			}
 		}
 	}
 	if ct.MayExit != nil && x.mode.Sweep && !fr.inDefer {
@@ -462,12 +467,18 @@ func (fr *Frame) applyContract(ct *Contract, callee *ssa.Function, sig *types.Si
 	if !ct.Pure {
 		if ct.HasMod {
 			fr.havocModifies(ct.Modifies, env, st, pc)
+			if contains(ct.Modifies, "*") && callee != nil && inRepo(callee) {
+				// "*" = everything reachable through escaped pointers plus what the body names
+				fr.applyModSet(x.W.fnModSet(callee), st, args)
+			}
 		} else if callee != nil && inRepo(callee) {
 			ms := x.W.fnModSet(callee)
 			fr.applyModSet(ms, st, args)
-		} else {
+		} else if !ct.Extern {
 			fr.externDefaultHavoc(args, st)
 		}
+		// an extern contract without a modifies clause declares the function
+		// to leave the program's heap alone (externals.spec header)
 	}
 	for _, pm := range ct.Permutes {
 		for i, n := range names {
@@ -1231,7 +1242,7 @@ func (w *World) computeModSets() {
 	for _, fn := range fns {
 		ms := newModSet()
 		w.modsets[fn] = ms
-		if ct := w.ContractFor(fn); ct != nil && ct.HasMod {
+		if ct := w.ContractFor(fn); ct != nil && ct.HasMod && !contains(ct.Modifies, "*") {
 			for _, n := range ct.Modifies {
 				switch {
 				case n == "*":
@@ -1349,7 +1360,7 @@ func (w *World) computeModSets() {
 	for changed := true; changed; {
 		changed = false
 		for _, fn := range fns {
-			if ct := w.ContractFor(fn); ct != nil && ct.HasMod {
+			if ct := w.ContractFor(fn); ct != nil && ct.HasMod && !contains(ct.Modifies, "*") {
 				continue
 			}
 			ms := w.modsets[fn]
